@@ -506,6 +506,7 @@ Section EntryFuel.
            level_loop lf sf weighted res thr perms m graphu p1 i1 modularity0 [] tie1 = OutOfFuel).
   Proof.
     intros lf sf g weighted res thr perms H. unfold louvain_partitions_t in H.
+    destruct (negative_weight_guard g weighted); [discriminate|].
     apply bind_fuel_inv in H. destruct H as [H|[graphu [Hgu H]]].
     { exfalso. exact (convert_graph_nf _ _ _ _ _ H). }
     apply bind_fuel_inv in H. destruct H as [H|[modularity0 [Hmod H]]].
